@@ -495,6 +495,35 @@ def gen_case(rng: Rng, max_routers: int = 3) -> dict:
             n = rng.below(len(t.nodes))
             if t.nodes[n]["kind"] != "switch":
                 extra.append({"op": "arpclear", "node": n})
+        if rng.chance(1, 3) and len(pairs) >= 1:
+            # RE-CABLING at run time (Network.remove_link + Network.connect): a host whose MAC its switch has learned moves to
+            # another free port of the same switch (sometimes of another switch); learned forwarding state must follow
+            sw_of = {}
+            for a_, i_, b_, j_ in t.links:
+                for (x, xi, y, yj) in ((a_, i_, b_, j_), (b_, j_, a_, i_)):
+                    if t.nodes[x]["kind"] == "host" and xi == 0 and t.nodes[y]["kind"] == "switch":
+                        sw_of[x] = y
+            movable = [h for h in hosts if h in sw_of and not any(o.get("op") == "recable" and o["node"] == h for o in extra)]
+            free = {s_: t.nodes[s_]["used"] for s_ in switches_idx if t.nodes[s_]["used"] < t.nodes[s_]["ports"]}
+            if movable and free:
+                h = rng.choice(movable)
+                same = sw_of[h] in free and rng.chance(3, 4)
+                s_ = sw_of[h] if same else rng.choice(sorted(free))
+                if s_ != sw_of[h]:
+                    notes["recable_other"] = True
+                port = t.swport(s_)
+                others = [x for x in hosts if x != h]
+                peer = rng.choice(others) if others else None
+                if peer is not None:  # the switch learns both stations on their old ports first
+                    extra.append({"op": "ping", "src": h, "dst": t.nodes[peer]["ip"], "count": 1})
+                extra.append({"op": "recable", "node": h, "ifc": 0, "sw": s_, "port": port})
+                notes["recable"] = notes.get("recable", 0) + 1
+                if peer is not None:
+                    extra.append({"op": "ping", "src": h, "dst": t.nodes[peer]["ip"], "count": 1})
+                    extra.append({"op": "ping", "src": peer, "dst": t.nodes[h]["ip"], "count": rng.choice([1, 2])})
+                    third = [x for x in others if x != peer]
+                    if third:
+                        extra.append({"op": "ping", "src": rng.choice(third), "dst": t.nodes[h]["ip"], "count": 1})
         if pairs:
             a, b = rng.choice(pairs)
             extra.append({"op": "ping", "src": a, "dst": t.nodes[b]["ip"], "count": rng.choice([1, 2])})
@@ -528,7 +557,7 @@ def gen_case(rng: Rng, max_routers: int = 3) -> dict:
         l.pop("switch", None)
     return {"nodes": t.nodes, "links": t.links, "air": t.air, "ping_permit": fw_ok([0, 1]), "ops": ops, "notes": notes, "icmp_ident_zero": rng.chance(1, 10), "all_permit": all_permit,
             "consistent": routing in ("static", "default", "mixed", "shadowed", "none") and not notes.get("gw_is_host")
-            and not notes.get("gw_off_subnet")}
+            and not notes.get("gw_off_subnet") and not notes.get("recable_other")}
 
 
 # ------------------------------------------------------------------------------------------ model side
@@ -595,6 +624,13 @@ def model_lines(case: dict) -> Tuple[List[str], List[int]]:
             lines.append(f"{op['op']} {op['node']} {op['ifc']}")
         elif op["op"] == "power":
             lines.append(f"power {op['node']} {op['on']}")
+        elif op["op"] == "recable":
+            # Network.remove_link + Network.connect + enable of both ends (the NIC last: it says hello to its gateway)
+            lines.append(f"unlink {op['node']} {op['ifc']}")
+            lines.append(f"link {op['node']} {op['ifc']} {op['sw']} {op['port']}")
+            lines.append(f"enable {op['sw']} {op['port']}")
+            op_pos[-1] = len(lines)
+            lines.append(f"enable {op['node']} {op['ifc']}")
         else:
             lines.append(f"arpclear {op['node']}")
     for n, nd in enumerate(case["nodes"]):
@@ -878,6 +914,12 @@ def run_impl(case: dict) -> Tuple[List[str], List[dict]]:
                     ifaces[op["node"]][op["ifc"]].enable()
                 elif op["op"] == "disable":
                     ifaces[op["node"]][op["ifc"]].disable()
+                elif op["op"] == "recable":
+                    nic = ifaces[op["node"]][op["ifc"]]
+                    net.remove_link(nic._connected_link)
+                    net.connect(endpoint_a=nic, endpoint_b=ifaces[op["sw"]][op["port"]])
+                    ifaces[op["sw"]][op["port"]].enable()
+                    nic.enable()
                 elif op["op"] == "power":
                     if op["on"]:
                         objs[op["node"]].power_on()
@@ -902,7 +944,7 @@ def run_impl(case: dict) -> Tuple[List[str], List[dict]]:
                     toks.append(f"sw:{e[1]}:{id(e[2])}")
             if res == "OOF":
                 answers.append("OOF")
-            elif op["op"] in ("ping", "enable", "service") or (op["op"] == "power" and op["on"]):
+            elif op["op"] in ("ping", "enable", "service", "recable") or (op["op"] == "power" and op["on"]):
                 answers.append(" ".join([res] + canon_events(toks)))
             else:
                 answers.append("ok")
@@ -1112,8 +1154,16 @@ def oracle(case: dict, records: List[dict]) -> Optional[dict]:
     the node owning its destination address; (d) on a consistent, fully-up topology every host-to-host ping succeeds."""
     down = set()
     off = set()
+    moved = set()  # hosts re-cabled at run time: until they have spoken through the moved NIC their switch may still point at the
+    # old port, so exchanges with them may legitimately fail; oracle (d) leaves them to the model comparison (the model re-learns
+    # exactly as `C08_switch_learns_last_port` says), (a)-(c) still apply
+    ip_of = {nd["ip"]: n for n, nd in enumerate(case["nodes"]) if nd["kind"] == "host"}
     for k, r in enumerate(records):
         op = r["op"]
+        if op["op"] == "recable":
+            moved.add(op["node"])
+        elif op["op"] in ("ping", "service") and (op["src"] in moved or ip_of.get(op.get("dst")) in moved):
+            op = dict(op, op=op["op"] + "-with-moved-host")
         if r["res"] == "OOF":
             return {"kind": "non-termination", "op": k, "what": f"RecursionError while handling {op}"}
         last: Dict[int, int] = {}
